@@ -20,8 +20,12 @@ KeyCps(i) == <<107>> \o (IF i < 10 THEN <<48 + i>> ELSE KeyCps(i \div 10) \o <<4
 \* host list a and dict d of length n, a one-element list b, a string s of n 'a's, an int k = 2, a Decimal m = 2
 Heap0(n) == << [t |-> "list", items |-> [i \in 1..n |-> HInt(0)]],
                [t |-> "dict", items |-> [i \in 1..n |-> <<KeyCps(i - 1), HInt(0)>>]],
-               [t |-> "list", items |-> <<HInt(5)>>] >>
+               [t |-> "list", items |-> <<HInt(5)>>],
+               \* e: a list of length n whose first element is itself a list
+               [t |-> "list", items |-> <<HInt(5)>>],
+               [t |-> "list", items |-> [i \in 1..n |-> IF i = 1 THEN [t |-> "list", addr |-> 4] ELSE HInt(0)]] >>
 Names0(n) == [n1 |-> [a |-> [t |-> "list", addr |-> 1], d |-> [t |-> "dict", addr |-> 2], b |-> [t |-> "list", addr |-> 3],
+                      e |-> [t |-> "list", addr |-> 5],
                       s |-> HStr([i \in 1..n |-> 97]), k |-> HInt(2),
                       m |-> [t |-> "dec", sub |-> FALSE, sign |-> 0, digs |-> <<2>>, exp |-> 0]]]
 
@@ -90,7 +94,12 @@ OpSeq == <<
     NCall("map", <<NList(<<A>>), NLambda(<<"v">>, NCall("insert", <<NName("v"), Num(0), Num(1)>>))>>),
     NAssign("q", NName("__setitem__")),
     NCall("q", <<Dn, Str1(122), Num(1)>>),
-    NCall("map", <<NList(<<Dn>>), NLambda(<<"v">>, NSetOp(NName("v"), NVal(VStr(<<107, 48>>)), PlusEq, Num(1)))>>) >>
+    NCall("map", <<NList(<<Dn>>), NLambda(<<"v">>, NSetOp(NName("v"), NVal(VStr(<<107, 48>>)), PlusEq, Num(1)))>>),
+    \* compound assignment to an element that is itself a list, in a container at the cap: refused before anything is touched
+    NSetOp(NName("e"), Num(0), PlusEq, B),
+    NSetOp(NName("e"), Num(0), PlusEq, Sn),
+    NSetOp(NName("e"), Num(0), PlusEq, NList(<<Num(1)>>)),
+    NSetOp(NName("e"), Num(0), MulEq, NName("k")) >>
 NOps == Len(OpSeq)
 
 \* scenario: length index + a sequence of operation indices (0 = none)
